@@ -96,7 +96,7 @@ def roundtrip(run, n, t):
     return fails
 
 
-def case_generated(run, ad, style, t):
+def case_generated(run, ad, style, t, alias_defs=()):
     text, plan = V.render(ad, style)
     path = run.path('.v')
     with open(path, 'w') as f:
@@ -104,7 +104,35 @@ def case_generated(run, ad, style, t):
     n, f = R.try_parse(path, PID)
     if f:
         return []        # refusal of generated text is C06's business
+    if alias_defs:
+        why = misread_aliases(n, ad, plan, alias_defs)
+        if why:
+            run.out['skipped'].append({'why': 'vector-net header alias not read as written (outside the supported subset)', 'where': why})
+            return []
     return roundtrip(run, n, t)
+
+
+def misread_aliases(n, ad, plan, alias_defs):
+    """C04 quantifies over netlists 'obtained by parsing supported structural Verilog ... module ports based at index 0'.  The support
+    page supports header aliases as 'single bit breakouts' and says the reader is limited beyond that; V.alias_shapes goes beyond
+    (bits of vector nets).  Such a case belongs to the quantifier only if the reader took the alias for what the text says: in the
+    modules alias_shapes changed, ports (direction, width, base 0), nets and bit-level joins are those of the abstract design
+    (the oracle of C06, render_verilog.ad_canon).  Where the reader re-bases or resizes the port instead (e.g. .p(p[6:5]) /
+    input [6:5] p; is read as a port p[6:5]) the netlist is not one this property speaks about and the case is skipped, counted
+    in 'skipped'."""
+    exp = V.ad_canon(ad, plan)
+    got = R.net_canon_verilog(n)
+    for dn in alias_defs:
+        for lib in exp['libs'].values():
+            if dn in lib['defs']:
+                e = lib['defs'][dn]
+        g = next((lib['defs'][dn] for lib in got['libs'].values() if dn in lib['defs']), None)
+        if g is None:
+            return dn
+        for k in ('ports', 'cables', 'nets'):
+            if R.diff(e[k], g[k]):
+                return '%s/%s' % (dn, k)
+    return None
 
 
 def case_file(run, z, t):
@@ -127,19 +155,20 @@ def main():
         if rp.get('file'):
             run.case(R.jhash(rp['file'], rp['transform']), True, None, lambda: case_file(run, rp['file'], rp['transform']), rp, limit=400)
         else:
-            run.case(R.jhash(rp['ad'], rp['style'], rp['transform']), True, None, lambda: case_generated(run, rp['ad'], rp['style'], rp['transform']), rp)
+            run.case(R.jhash(rp['ad'], rp['style'], rp['transform']), True, None, lambda: case_generated(run, rp['ad'], rp['style'], rp['transform'], rp.get('alias_defs') or ()), rp)
         return run.finish()
     for seed in cfg.get('seeds', []):
         ad = R.gen_hier(seed, 'verilog')
         # "aliased header ports": besides gen_hier's single-bit breakouts onto 1-bit nets, half of the designs get aliases onto
         # bits of vector nets - the net named like the port (permuted / re-based / sub-range / shared by two ports) or another one
-        V.alias_shapes(ad, random.Random('c04-alias:%s' % seed), **(cfg.get('alias_shapes') or {}))
+        al = sorted(set(x[0] for x in V.alias_shapes(ad, random.Random('c04-alias:%s' % seed), **(cfg.get('alias_shapes') or {}))))
         for v in range(cfg.get('styles', 1)):
             style = V.make_style(seed, v)
             style.update(cfg.get('style_override') or {})
             for t in ['none', TRANSFORMS[1 + (seed + v) % 3]]:
                 run.case(R.jhash(ad, style, t), nontrivial(ad), {'seed': seed, 'transform': t, 'features': R.ad_features(ad)} if t != 'none' else None,
-                         lambda: case_generated(run, ad, style, t), {'kind': 'verilog-rt', 'seed': seed, 'ad': ad, 'style': style, 'transform': t})
+                         lambda: case_generated(run, ad, style, t, al),
+                         {'kind': 'verilog-rt', 'seed': seed, 'ad': ad, 'style': style, 'transform': t, 'alias_defs': al})
     if cfg.get('corners'):
         for name, ad in R.corner_ads('verilog'):
             for v in range(3):
